@@ -248,6 +248,7 @@ class RefServer(object):
         self.rng = rng
         self.requests = []
         self.overshoot = 0
+        self.last = None
 
     def __call__(self, environ, start_response):
         path = environ.get("PATH_INFO", "")
@@ -298,4 +299,8 @@ class RefServer(object):
         root = {"name": self.root["name"], "items": [node]}
         body = serialise([sel], self.little)
         sizes = random_partition(self.rng, len(body)) if self.rng is not None else [len(body)]
+        # what was sent, for the end-to-end correspondence: DMR chunk, chunk sizes of the body, checksum word
+        self.last = {"dmr": render_dmr(root), "sizes": list(sizes),
+                     "crc": int(zlib.crc32(np.ascontiguousarray(sel).astype(
+                         sel.dtype.newbyteorder("<" if self.little else ">")).tobytes()) & 0xFFFFFFFF)}
         return encode_response(render_dmr(root), [sel], self.little, sizes)
